@@ -117,6 +117,49 @@ type spec struct {
 	grace       time.Duration
 	sched       string
 	thrMs       int // configured threshold (0 = derive from fires)
+	// sequences of calls on one instance
+	inst        *instance       // non-nil: call this instance instead of building one
+	qname       string          // routes the instance's executables to this call
+	holdCleanup <-chan struct{} // non-nil: keep this call's goroutines parked after it returned, until closed
+	seqN        int             // >0: emit as CSeq with this many abandoned calls before
+}
+
+// instance is one fallback plugin whose executables find the call they belong
+// to by the question name (doFallback hands each worker a copy of the query).
+type instance struct {
+	fb     sequence.Executable
+	routes sync.Map // qname -> *ctl
+}
+
+type routed struct {
+	in   *instance
+	prim bool
+}
+
+func (e *routed) Exec(ctx context.Context, qCtx *query_context.Context) error {
+	v, ok := e.in.routes.Load(qCtx.QQuestion().Name)
+	if !ok {
+		return errScripted
+	}
+	return (&scripted{c: v.(*ctl), prim: e.prim}).Exec(ctx, qCtx)
+}
+
+func newInstance(thrMs int, standby bool) (*instance, error) {
+	in := &instance{}
+	m := coremain.NewTestMosdnsWithPlugins(map[string]any{
+		"p": &routed{in: in, prim: true},
+		"s": &routed{in: in, prim: false},
+	})
+	args := new(fallback.Args)
+	if err := utils.WeakDecode(map[string]any{"primary": "p", "secondary": "s", "always_standby": standby, "threshold": thrMs}, args); err != nil {
+		return nil, err
+	}
+	p, err := fallback.Init(coremain.NewBP("fb", m), args)
+	if err != nil {
+		return nil, err
+	}
+	in.fb = sequence.ToExecutable(p)
+	return in, nil
 }
 
 func (s *spec) coqPrefix() string {
@@ -124,8 +167,12 @@ func (s *spec) coqPrefix() string {
 	if s.fires {
 		tm = "TFires"
 	}
+	head := "Case"
+	if s.seqN > 0 {
+		head = "CSeq " + hx.Ni(s.seqN)
+	}
 	g := hx.App("mkG", s.g[0].coq(), s.g[1].coq(), s.g[2].coq(), s.g[3].coq(), s.g[4].coq(), s.g[5].coq())
-	return strings.Join([]string{"Case", s.po.coq(), s.so.coq(), hx.Bool(s.standby), tm, s.dl, g}, " ")
+	return strings.Join([]string{head, s.po.coq(), s.so.coq(), hx.Bool(s.standby), tm, s.dl, g}, " ")
 }
 
 // ---------- per-case controller ----------
@@ -373,11 +420,18 @@ func runCase(sp *spec) result {
 	if sp.thrMs != 0 {
 		thr = sp.thrMs
 	}
-	p, err := build(c, true, thr, sp.standby)
-	if err != nil {
-		return result{coq: sp.coqPrefix() + " OBad", desc: map[string]any{"init": err.Error()}, kind: "bad"}
+	var fb sequence.Executable
+	qname := "c20.test."
+	if sp.inst != nil {
+		fb, qname = sp.inst.fb, sp.qname
+		sp.inst.routes.Store(qname, c)
+	} else {
+		p, err := build(c, true, thr, sp.standby)
+		if err != nil {
+			return result{coq: sp.coqPrefix() + " OBad", desc: map[string]any{"init": err.Error()}, kind: "bad"}
+		}
+		fb = sequence.ToExecutable(p)
 	}
-	fb := sequence.ToExecutable(p)
 
 	var ctx context.Context
 	var cancel context.CancelFunc
@@ -400,7 +454,7 @@ func runCase(sp *spec) result {
 	}
 
 	q := new(dns.Msg)
-	q.SetQuestion("c20.test.", dns.TypeA)
+	q.SetQuestion(qname, dns.TypeA)
 	qCtx := query_context.NewContext(q)
 	if sp.ctxAge > 0 {
 		backdate(qCtx, sp.ctxAge)
@@ -442,7 +496,11 @@ func runCase(sp *spec) result {
 	case <-time.After(4 * time.Second): // below the workers' 5 s default deadline
 		obs, kind = "OHung", "hung"
 	}
-	close(c.cleanup)
+	if sp.holdCleanup != nil {
+		go func() { <-sp.holdCleanup; close(c.cleanup) }()
+	} else {
+		close(c.cleanup)
+	}
 	cancel()
 	return result{
 		res: resOut, t0: t0, c: c,
@@ -738,6 +796,61 @@ func main() {
 			r.desc["schedule"] = "pooled-timer"
 			r.desc["preceded_by"] = "a call whose 20 ms threshold timer expired unreceived"
 			w.Emit("pooled-timer/"+r.kind, hx.Case{ID: id, Coq: r.coq, Desc: r.desc})
+		}
+	}
+
+	// Sequences of calls on ONE instance (threshold 50 ms): n calls abandoned by
+	// their callers at once (context cancelled before the threshold, primary
+	// still inside Exec, secondary goroutine parked on the threshold timer or,
+	// with always_standby, holding its answer) and kept in that state; then,
+	// directly afterwards, the observed call. The outcome of a call must not
+	// depend on earlier calls: the observed call is judged by the single-call model.
+	seqTmpl := func(name string) *tmpl {
+		for i := range templates {
+			if templates[i].name == name {
+				return &templates[i]
+			}
+		}
+		panic(name)
+	}
+	type seqVar struct {
+		tmpl   string
+		po, so outcome
+	}
+	for _, v := range []seqVar{
+		{"late-s-first", oAns, oAns},            // slow primary, fast secondary: the secondary's answer
+		{"late-s-first", oNone, oAns},           // primary never produces anything
+		{"late-p-after-s-started", oNone, oErr}, // both fail, the primary only after the secondary was started
+		{"late-p-after-s-started", oAns, oAns},  // the primary answers once the secondary was started
+	} {
+		for _, sb := range []bool{false, true} {
+			for _, n := range []int{1, 3} {
+				for k := 0; k < 2; k++ {
+					id := fmt.Sprintf("seq:abandoned:%s:%s:%s:%v:%d:%d", v.tmpl, v.po.coq(), v.so.coq(), sb, n, k)
+					if !o.Want(id) {
+						continue
+					}
+					in, err := newInstance(50, sb)
+					if err != nil {
+						fmt.Fprintln(os.Stderr, "c20:", err)
+						os.Exit(2)
+					}
+					release := make(chan struct{})
+					for i := 0; i < n; i++ {
+						a := &spec{po: oAns, so: oAns, standby: sb, fires: true, dl: "DNone", sched: "abandoned", thrMs: 50,
+							g: gates(cNever, cTrue, cTrue, cTrue, cTrue, cTrue), grace: 20 * time.Millisecond,
+							inst: in, qname: fmt.Sprintf("a%d.c20.test.", i), holdCleanup: release}
+						runCase(a)
+					}
+					b := mkSpec(o, id, seqTmpl(v.tmpl), v.po, v.so, sb, 0)
+					b.thrMs, b.inst, b.qname, b.seqN, b.sched = 50, in, "b.c20.test.", n, "after-abandoned"
+					r := runCase(b)
+					close(release)
+					r.desc["schedule"] = "after-abandoned/" + v.tmpl
+					r.desc["abandoned_before"] = n
+					w.Emit("after-abandoned/"+r.kind, hx.Case{ID: id, Coq: r.coq, Desc: r.desc})
+				}
+			}
 		}
 	}
 
